@@ -15,8 +15,12 @@ RqModel/Model/Queue.lean.
         req.Close() } }
 
 Statements are `Nat`s (identities). `Execute` is external: each call either
-succeeds (`execOk`) or fails (`execFail`); nothing is assumed about how often it
-fails. A successful `Execute` is what "applied" means. `req.Objects == nil`
+succeeds (`execOk`), fails without effect (`execFail`), or fails from the
+caller's point of view although the batch was committed and applied
+(`execFailCommitted`: raft.ErrLeadershipLost / a lost response of a forwarded
+request; `runQueue` retries on EVERY error, so such a batch is applied again).
+Nothing is assumed about how often it fails. `applied` records every time a batch
+reached the database. `req.Objects == nil`
 exactly when the merged request has no statements (`append` of empty slices to
 a nil slice stays nil), and then `Execute` is skipped.
 -/
@@ -30,6 +34,7 @@ structure Svc where
   done : List Req := []             -- fully processed requests, in order
   applied : List (List Nat) := []   -- statement lists of the successful Execute calls, in order
   failed : Nat := 0                 -- failed Execute calls so far
+  lostAcks : Nat := 0               -- Execute calls that returned an error although the batch WAS applied
   lastSeq : Int := 0                -- s.seqNum
   stopped : Bool := false           -- runQueue returned
 deriving Repr
@@ -45,6 +50,8 @@ inductive Step where
   | take                      -- `case req := <-s.stmtQueue.C`
   | execFail                  -- Execute returned an error; sleep; retry
   | execOk                    -- Execute returned nil
+  | execFailCommitted         -- Execute returned an error (e.g. "leadership lost while committing log",
+                              -- a lost forward response) but raft did commit and apply the batch
   | stop                      -- `case <-s.closeCh: return`
 deriving Repr, DecidableEq
 
@@ -68,6 +75,11 @@ def step (v : Svc) : Step → Option Svc
     match v.cur with
     | some _ => some { v with failed := v.failed + 1 }
     | none => none
+  | .execFailCommitted =>
+    if v.stopped then none else
+    match v.cur with
+    | some r => some { v with applied := v.applied ++ [r.objs], failed := v.failed + 1, lostAcks := v.lostAcks + 1 }
+    | none => none
   | .execOk =>
     if v.stopped then none else
     match v.cur with
@@ -83,7 +95,7 @@ def run (v : Svc) (steps : List Step) : Svc := steps.foldl next v
 `new <maxSize> <batchSize> <timeout>` → `ok`
 `write <stmts|-> <flushId|->` → `<seq>` | `blocked` | `closed`
 `flush` `recv` `fire` `send` → `ok` | `disabled` | `blocked`
-`take` `execfail` `execok` `stop` → `ok` | `disabled`
+`take` `execfail` `execfailcommitted` `execok` `stop` → `ok` | `disabled`
 `applied` → `a,b|c|...` or `-` ;  `closedflush` → ids | `-` ; `failed` → n ; `lastseq` → n -/
 
 structure DState where
@@ -123,6 +135,7 @@ def step' (d : DState) (line : String) : DState × String :=
   | ["take"] => optStep d (step d.v .take)
   | ["execfail"] => optStep d (step d.v .execFail)
   | ["execok"] => optStep d (step d.v .execOk)
+  | ["execfailcommitted"] => optStep d (step d.v .execFailCommitted)
   | ["stop"] => optStep d (step d.v .stop)
   | ["applied"] =>
     (d, if d.v.applied.isEmpty then "-" else "|".intercalate (d.v.applied.map natsStr))
